@@ -85,6 +85,11 @@ var glSpecs = []glSpec{
 	{"indexmeta", "", "encodeUint64", "metaEncodeUint64"},
 	{"indexmeta", "", "decodeUint64", "metaDecodeUint64"},
 	{"indexmeta", "", "cloneBytes", "metaCloneBytes"},
+	{"bucketteer", "", "eytzinger", "bkEytzinger"},
+	{"deprecated/bucketteer", "", "eytzinger", "bk1Eytzinger"},
+	{"compactindexsized", "", "eytzinger", "ciEytzinger"},
+	{"deprecated/compactindex", "", "eytzinger", "l8Eytzinger"},
+	{"deprecated/compactindex36", "", "eytzinger", "l36Eytzinger"},
 	{"slottools", "", "CalcEpochForSlot", "calcEpochForSlotM"},
 	{"slottools", "", "EpochForSlot", "epochForSlot"},
 	{"slottools", "", "Uint64ToLEBytes", "uint64ToLEBytes"},
@@ -881,15 +886,36 @@ func (g *glGen) translate(f *glFunc) (src string, err error) {
 	}
 	head := fmt.Sprintf("def %s %s : M %s := do\n", f.spec.lean, strings.Join(params, " "), c.retType)
 	if f.selfRec {
-		// structural recursion on fuel
-		var ps []string
+		// structural recursion on fuel: `def f {T} (externs) : Nat → P1 → … → M R | 0, .. => hang | fuel+1, p1, .. => do body`
+		var implicit, types_, names []string
+		seenFuel := false
 		for _, p := range params {
-			if p != "(fuel : Nat)" {
-				ps = append(ps, p)
+			switch {
+			case p == "(fuel : Nat)":
+				seenFuel = true
+			case strings.HasPrefix(p, "{"):
+				implicit = append(implicit, p)
+			case !seenFuel:
+				implicit = append(implicit, p) // externs come before the fuel
+			default:
+				inner := strings.TrimSuffix(strings.TrimPrefix(p, "("), ")")
+				kv := strings.SplitN(inner, " : ", 2)
+				names = append(names, kv[0])
+				types_ = append(types_, kv[1])
 			}
 		}
-		_ = ps
-		return "", fmt.Errorf("recursive functions are not supported yet")
+		us := make([]string, len(names))
+		for i := range us {
+			us[i] = "_"
+		}
+		var b strings.Builder
+		fmt.Fprintf(&b, "def %s %s : Nat%s → M %s\n", f.spec.lean, strings.Join(implicit, " "), prefixEach(" → ", types_), c.retType)
+		fmt.Fprintf(&b, "  | 0%s => throw Err.hang\n", prefixEach(", ", us))
+		fmt.Fprintf(&b, "  | fuel+1%s => do\n", prefixEach(", ", names))
+		for _, l := range c.lines {
+			b.WriteString("  " + l + "\n")
+		}
+		return strings.Join(c.aux, "") + b.String(), nil
 	}
 	return strings.Join(c.aux, "") + head + strings.Join(c.lines, "\n") + "\n", nil
 }
